@@ -409,6 +409,7 @@ class Molecules:
         pos: list[np.ndarray] = []
         quat: list[np.ndarray] = []
         features: list[pl.DataFrame] = []
+        moles = list(moles)
         for mol in moles:
             pos.append(mol.pos)
             quat.append(mol.quaternion())
@@ -418,6 +419,9 @@ class Molecules:
         all_quat = np.concatenate(quat, axis=0)
         if concat_features:
             how = "diagonal" if nullable else "vertical"
+            if nullable:
+                schema = _merged_schema(features)
+                features = [_features_or_nulls(mol, schema) for mol in moles]
             all_features = pl.concat(features, how=how)
         else:
             all_features = None
@@ -977,13 +981,18 @@ class Molecules:
             [self.quaternion(), other.quaternion()],
             axis=0,
         )
-        if len(self.features) == 0:
-            feat = other.features
-        elif len(other.features) == 0:
-            feat = self.features
+        feat_self, feat_other = self.features, other.features
+        if nullable:
+            schema = _merged_schema([feat_self, feat_other])
+            feat_self = _features_or_nulls(self, schema)
+            feat_other = _features_or_nulls(other, schema)
+        if len(feat_self) == 0:
+            feat = feat_other
+        elif len(feat_other) == 0:
+            feat = feat_self
         else:
             how = "diagonal" if nullable else "vertical"
-            feat = pl.concat([self.features, other.features], how=how)
+            feat = pl.concat([feat_self, feat_other], how=how)
         return self.__class__(pos, Rotation.from_quat(rot), features=feat)
 
     @overload
@@ -1120,7 +1129,8 @@ class Molecules:
         if self.count() == 0:
             feat = other.features
         else:
-            feat = pl.concat([self.features, other.features], how="diagonal")
+            other_features = _features_or_nulls(other, dict(self.features.schema))
+            feat = pl.concat([self.features, other_features], how="diagonal")
             if len(feat.columns) != len(self.features.columns):
                 extra = set(other.features.columns) - set(self.features.columns)
                 raise ValueError(
@@ -1128,8 +1138,25 @@ class Molecules:
                 )
         self._pos = pos
         self._rotator = Rotation.from_quat(rot)
-        self._features = feat
+        self.features = feat
         return self
+
+
+def _merged_schema(features: Iterable[pl.DataFrame]) -> dict[str, Any]:
+    schema: dict[str, Any] = {}
+    for feat in features:
+        for name, dtype in feat.schema.items():
+            schema.setdefault(name, dtype)
+    return schema
+
+
+def _features_or_nulls(mol: Molecules, schema: dict[str, Any]) -> pl.DataFrame:
+    """Features of ``mol``, or a null column if it has molecules but no feature."""
+    feat = mol.features
+    if feat.width == 0 and mol.count() > 0 and len(schema) > 0:
+        name, dtype = next(iter(schema.items()))
+        return pl.DataFrame({name: pl.Series(name, [None] * mol.count(), dtype=dtype)})
+    return feat
 
 
 def _is_boolean_array(a: Any) -> TypeGuard[NDArray[np.bool_]]:
